@@ -111,8 +111,129 @@ let run_heap () =
     done;
     flush_line ())
 
+(* ---------------- comment lexer ---------------- *)
+(* "[1,2,3]" -> int list *)
+let parse_bracket (s : string) : int list =
+  let n = String.length s in
+  if n < 2 then [] else
+  let body = String.sub s 1 (n - 2) in
+  if body = "" then [] else List.map int_of_string (String.split_on_char ',' body)
+
+let load_lang_table path =
+  let ic = open_in path in
+  let rows = ref [] in
+  (try while true do
+     let l = input_line ic in
+     match String.split_on_char ' ' l with
+     | [s1; s2; ms; me; ms2; me2; dq; sq; bt; html; py; js; nest] ->
+       let rl x = List.map n_of_int (parse_bracket x) in
+       let q = function "-" -> None | "1" -> Some true | _ -> Some false in
+       rows := { Lexer.l_single = rl s1; l_single2 = rl s2; l_mstart = rl ms; l_mend = rl me;
+                 l_mstart2 = rl ms2; l_mend2 = rl me2; l_dq = q dq; l_sq = q sq; l_bt = q bt;
+                 l_html = (html = "1"); l_python = (py = "1"); l_jsperl = (js = "1");
+                 l_nested = (nest = "1") } :: !rows
+     | _ -> failwith ("bad language row: " ^ l)
+   done with End_of_file -> close_in ic);
+  Array.of_list (List.rev !rows)
+
+let pr_comments cs =
+  List.iter (fun c ->
+    pr "%d:%d:[" (int_of_n c.Lexer.c_start) (int_of_n c.Lexer.c_end);
+    List.iteri (fun i r -> if i > 0 then pr ","; pr "%d" (int_of_n r)) c.Lexer.c_text;
+    pr "];") cs
+
+let pr_chunks pairs =
+  pr "chunks=";
+  (match Lexer.chunks pairs with
+   | None -> pr "FUEL"
+   | Some l -> List.iteri (fun i ch -> if i > 0 then pr ","; pr "%d" (List.length ch)) l);
+  pr " same=1"
+
+let run_lexer table variant =
+  let langs = load_lang_table table in
+  iter_lines (fun line ->
+    match ints_of_line line with
+    | [] -> flush_line ()
+    | li :: runes ->
+      let l = langs.(li) in
+      let rs = List.map n_of_int runes in
+      let res = match variant with
+        | "original" -> Lexer.parse Lexer.original l rs
+        | "repaired" -> Lexer.parse Lexer.repaired l rs
+        | "spec" -> Some (LexSpec.spec_parse l rs)
+        | _ -> failwith "variant" in
+      (match res with
+       | None -> pr "FUEL"
+       | Some cs ->
+         pr_comments cs; pr " | ";
+         pr_chunks (List.map (fun c -> (c.Lexer.c_start, c.Lexer.c_end)) cs));
+      flush_line ())
+
+let run_chunks () =
+  iter_lines (fun line ->
+    let rec pairs = function a :: b :: r -> (n_of_int a, n_of_int b) :: pairs r | _ -> [] in
+    pr_chunks (pairs (ints_of_line line));
+    flush_line ())
+
+(* well-formedness of the language table as required by the theorems *)
+let run_langwf table =
+  let langs = load_lang_table table in
+  Array.iteri (fun i l -> Printf.printf "%d %b\n" i (LexSpec.lang_wf l)) langs
+
+(* ---------------- v2 tokenizer ---------------- *)
+let read_lines path =
+  if not (Sys.file_exists path) then [] else begin
+    let ic = open_in path in
+    let ls = ref [] in
+    (try while true do ls := input_line ic :: !ls done with End_of_file -> close_in ic);
+    List.rev !ls end
+
+(* "1.2.3" -> N list ; "" -> [] *)
+let runes_of_dot (s : string) =
+  if s = "" then [] else List.map (fun x -> n_of_int (int_of_string x)) (String.split_on_char '.' s)
+let fields l = String.split_on_char ' ' l
+let pr_dot w = List.iteri (fun i r -> if i > 0 then pr "."; pr "%d" (int_of_n r)) w
+
+let load_tok_tables dir uefile =
+  let pairs f = List.filter_map (fun l -> match List.filter (fun x -> x <> "") (fields l) with
+      | [a; b] -> Some (n_of_int (int_of_string a), n_of_int (int_of_string b)) | _ -> None) (read_lines (Filename.concat dir f)) in
+  let lower = List.filter_map (fun l -> match fields l with
+      | [a; b; c] -> Some ((n_of_int (int_of_string a), n_of_int (int_of_string b)), n_of_int (int_of_string c)) | _ -> None)
+      (read_lines (Filename.concat dir "unicode.lower")) in
+  let pm = List.filter_map (fun l -> match fields l with
+      | [a; b] -> Some (n_of_int (int_of_string a), runes_of_dot b) | [a] -> Some (n_of_int (int_of_string a), []) | _ -> None)
+      (read_lines (Filename.concat dir "punct.map")) in
+  let markers = List.map runes_of_dot (read_lines (Filename.concat dir "list.markers")) in
+  let wordpairs path = List.filter_map (fun l -> match fields l with
+      | [a; b] -> Some (runes_of_dot a, runes_of_dot b) | [a] -> Some (runes_of_dot a, []) | _ -> None) (read_lines path) in
+  let iw = wordpairs (Filename.concat dir "interchangeable") in
+  let ue = if uefile = "" then [] else wordpairs uefile in
+  TokTables.mk_tables (pairs "unicode.letters") (pairs "unicode.digits") (pairs "unicode.spaces") lower pm markers iw ue
+
+let pr_doc (d : Tok.doc) =
+  List.iteri (fun i (w, l) -> if i > 0 then pr " "; pr "%d:" (int_of_n l); pr_dot w) d.Tok.d_toks;
+  pr " | ";
+  List.iteri (fun i l -> if i > 0 then pr " "; pr "%d" (int_of_n l)) d.Tok.d_matches
+
+let run_tok dir mode phase uefile =
+  let t = load_tok_tables dir uefile in
+  let normalize = (mode = "norm") in
+  let seen = Hashtbl.create 64 in
+  iter_lines (fun line ->
+    let bs = List.map n_of_int (ints_of_line line) in
+    let d = Tok.tokenize_whole t normalize bs in
+    if phase = "amps" then
+      List.iter (fun w ->
+        if not (Hashtbl.mem seen w) then begin Hashtbl.add seen w (); pr_dot w; flush_line () end) d.Tok.d_amps
+    else begin pr_doc d; flush_line () end)
+
 let () =
   match Sys.argv with
+  | [| _; "tok"; dir; mode; "amps" |] -> run_tok dir mode "amps" ""
+  | [| _; "tok"; dir; mode; "run"; uefile |] -> run_tok dir mode "run" uefile
+  | [| _; "lexer"; table; variant |] -> run_lexer table variant
+  | [| _; "chunks" |] -> run_chunks ()
+  | [| _; "langwf"; table |] -> run_langwf table
   | [| _; "sets" |] -> run_sets ()
   | [| _; "heap" |] -> run_heap ()
   | _ -> prerr_endline "usage: driver <family>"; exit 2
